@@ -341,4 +341,110 @@ theorem isParentARepeat_spec (reps : List Str) (p : List Str) (hg : GoodNames p)
     IsNearestRep reps p (isParentARepeat reps (pathStr p)) :=
   isParentARepeatF_spec reps _ p hg (by have := length_pathStr_ge p; omega)
 
+/-! ## `share_same_repeat_parent` -/
+
+theorem take_ne_nil {α} (l : List α) (n : Nat) (h0 : 0 < n) (hl : 0 < l.length) : l.take n ≠ [] := by
+  intro e
+  have := congrArg List.length e
+  rw [List.length_take, List.length_nil] at this
+  omega
+
+/-- what the caller needs from `(steps, parts)`: at least one step up, not above the document node, and the
+path lands on `t`; the last part is `t`'s own name. -/
+def Reaches (c t : List Str) (r : Nat × List Str) : Prop :=
+  1 ≤ r.1 ∧ r.1 ≤ c.length ∧ c.take (c.length - r.1) ++ r.2 = t ∧ r.2 ≠ [] ∧ r.2.getLast? = t.getLast?
+
+theorem gst_resolves (c t : List Str) (gc : GoodNames c) (gt : GoodNames t) (j : Nat) (hj0 : 0 < j)
+    (hjc : j < c.length) (hjt : j < t.length) (hpre : c.take j = t.take j) (inc : Bool) :
+    Reaches c t (getStepsAndTarget (pathStr t) (pathStr c) (pathStr (t.take j)) inc) := by
+  have hc0 : c ≠ [] := by intro e; simp [e] at hjc
+  have ht0 : t ≠ [] := by intro e; simp [e] at hjt
+  have htj : t.take j ≠ [] := take_ne_nil t j hj0 (by omega)
+  rw [getStepsAndTarget_eq, split_pathStr c hc0 gc, split_pathStr t ht0 gt, split_pathStr _ htj (gt.take j)]
+  simp only [List.length_cons, List.length_take]
+  have hmin : min j t.length = j := by omega
+  rw [hmin]
+  cases inc with
+  | false =>
+    simp only [Bool.false_eq_true, ↓reduceIte, Nat.sub_zero, List.drop_succ_cons]
+    exact stepsCore_resolves c t j hjc hjt hpre false
+  | true =>
+    simp only [↓reduceIte, Nat.add_sub_cancel]
+    obtain ⟨k, rfl⟩ : ∃ k, j = k + 1 := ⟨j - 1, by omega⟩
+    simp only [List.drop_succ_cons]
+    have hpre' : c.take k = t.take k := by
+      have := congrArg (List.take k) hpre
+      simpa [List.take_take, Nat.min_eq_left (Nat.le_succ k)] using this
+    exact stepsCore_resolves c t k (by omega) (by omega) hpre' true
+
+theorem take_eq_of_prefix {α} (a b : List α) (j : Nat) (hj : j ≤ b.length) (h : b.take j <+: a) : a.take j = b.take j := by
+  obtain ⟨r, hr⟩ := h
+  rw [← hr, List.take_append_of_le_length (by simp; omega)]
+  simp [List.take_take]
+
+theorem ssrp_resolves (reps : List Str) (c t : List Str) (gc : GoodNames c) (gt : GoodNames t) (rp : Bool)
+    (r : Nat × List Str) (h : shareSameRepeatParent reps (pathStr t) (pathStr c) rp = some r) : Reaches c t r := by
+  have hc := isParentARepeat_spec reps c gc
+  have ht := isParentARepeat_spec reps t gt
+  unfold shareSameRepeatParent at h
+  cases hcp : isParentARepeat reps (pathStr c) with
+  | none => simp [hcp] at h
+  | some cp =>
+    cases hxp : isParentARepeat reps (pathStr t) with
+    | none => simp [hcp, hxp] at h
+    | some xp =>
+      rw [hcp] at hc; rw [hxp] at ht
+      obtain ⟨i, hi0, hil, rfl, -, -⟩ := hc
+      obtain ⟨j, hj0, hjl, rfl, -, -⟩ := ht
+      simp only [hcp, hxp] at h
+      have hci : c.take i ≠ [] := take_ne_nil c i hi0 (by omega)
+      have htj : t.take j ≠ [] := take_ne_nil t j hj0 (by omega)
+      by_cases hsw : startsWith (pathStr (c.take i) ++ ['/']) (pathStr (t.take j) ++ ['/']) = true
+      · -- the target's repeat parent is an ancestor-or-self of the context's repeat parent
+        have hpre := startsWith_pathStr _ _ hci htj (gc.take i) (gt.take j) hsw
+        have hji : j ≤ i := by
+          have := hpre.length_le
+          rw [List.length_take, List.length_take] at this; omega
+        have hpre2 : t.take j <+: c := hpre.trans (List.take_prefix i c)
+        have hcj : c.take j = t.take j := take_eq_of_prefix c t j (by omega) hpre2
+        have key : ∀ inc, Reaches c t (getStepsAndTarget (pathStr t) (pathStr c) (pathStr (t.take j)) inc) :=
+          fun inc => gst_resolves c t gc gt j hj0 (by omega) hjl hcj inc
+        simp only [hsw, ↓reduceIte] at h
+        split at h
+        · split at h
+          · cases h; exact key _
+          · split at h <;> (cases h; exact key _)
+        · cases h; exact key _
+      · -- both have a repeat parent, neither contains the other: a shared repeat further up?
+        simp only [hsw, Bool.false_eq_true, ↓reduceIte] at h
+        have hc2 := isParentARepeat_spec reps (c.take i) (gc.take i)
+        have ht2 := isParentARepeat_spec reps (t.take j) (gt.take j)
+        cases hcsa : isParentARepeat reps (pathStr (c.take i)) with
+        | none => simp [hcsa] at h
+        | some csa =>
+          cases hxsa : isParentARepeat reps (pathStr (t.take j)) with
+          | none => simp [hcsa, hxsa] at h
+          | some xsa =>
+            rw [hcsa] at hc2; rw [hxsa] at ht2
+            obtain ⟨i', hi'0, hi'l, rfl, -, -⟩ := hc2
+            obtain ⟨j', hj'0, hj'l, rfl, -, -⟩ := ht2
+            simp only [hcsa, hxsa] at h
+            simp only [List.length_take] at hi'l hj'l
+            have e1 : (c.take i).take i' = c.take i' := by rw [List.take_take]; congr 1; omega
+            have e2 : (t.take j).take j' = t.take j' := by rw [List.take_take]; congr 1; omega
+            rw [e1, e2] at h
+            split at h
+            · next heq =>
+              have heq' : pathStr (t.take j') = pathStr (c.take i') := by simpa using heq
+              have hne1 : t.take j' ≠ [] := take_ne_nil t j' hj'0 (by omega)
+              have hne2 : c.take i' ≠ [] := take_ne_nil c i' hi'0 (by omega)
+              have hseg := pathStr_inj _ _ hne1 hne2 (gt.take j') (gc.take i') heq'
+              have hlen : j' = i' := by
+                have := congrArg List.length hseg
+                rw [List.length_take, List.length_take] at this; omega
+              subst hlen
+              cases h
+              exact gst_resolves c t gc gt j' hj'0 (by omega) (by omega) hseg.symm false
+            · simp at h
+
 end Pyxv.Refs
